@@ -51,6 +51,7 @@ def gateOf (c : Client) : Option String :=
   | .createReread _, _ => some "get"
   | .createRetry _, _ => some "commit"
   | .createOver _ _, _ => some "commit"
+  | .createRecheck _, _ => some "get"
   | .updateCommit _, _ => some "commit"
   | .deleteDeal _, _ => none
   | .deleteCommit _ _ _, _ => some "commit"
